@@ -13,6 +13,7 @@ from fractions import Fraction
 import z3
 
 from . import terms as T
+import re as _re_mod
 from .terms import EngineError, Obligation, cur
 from . import arrays as A
 from . import discharge
@@ -241,8 +242,12 @@ class Check:
             module.build(self)
         finally:
             self._include = None
-            # the included harness's own narrative (assumptions, bounded stand-ins, native lemmas) stays with its property
-            self.assumptions[:], self.configs[:], self.lemmas[:], self.bounded[:], self.native_results[:] = keep
+            # the included harness's own narrative (assumptions, bounded stand-ins, lemma texts) stays with its property;
+            # its natively decided obligations (exact rational identities on extracted tableaux ...) are kept under the label
+            newnat = [nr for nr in self.native_results[len(keep[4]):]
+                      if _re_mod.search(pattern, nr["name"].split("/", 1)[1]) and "BOUNDED" not in nr["name"] and "Lean" not in nr["name"]]
+            self.assumptions[:], self.configs[:], self.lemmas[:], self.bounded[:] = keep[:4]
+            self.native_results[:] = keep[4] + [dict(nr, name="%s/%s/%s" % (self.prop, label, nr["name"].split("/", 1)[1])) for nr in newnat]
 
     def native(self, name, ok, detail="", replay=None, backend="exact-rational"):
         """record an obligation decided natively (exact rational arithmetic on values
